@@ -1,14 +1,1128 @@
 //go:debug asynctimerchan=0
-//go:build go1.21
+//go:build go1.22
 
 package cluster
 
+// C19 — Syncer snapshots are real store states and converge to the final state.
+//
+// System under test (all real): syncer.run, the four Sync* adapters, cluster
+// Get/GetRaw/GetRawPrefix/Put/Delete/DeletePrefix/PutAndDelete on a cluster
+// value built in-package around a real etcd clientv3 client (real gRPC, real
+// watcher resume logic, real retry interceptor) that is connected over simnet to
+// simetcd (harness/simetcd: a single-copy MVCC model of the etcd server).
+//
+// A run: 1-2 syncers (key / raw key / prefix / raw prefix) each with a consumer
+// that reads promptly or lags (so the 10-slot channel fills); 1-3 phases, each
+// with writer tasks (put / same-value put / delete / delete-then-recreate /
+// delete-prefix / multi-key txn, on keys under and outside the watched
+// key/prefix, issued through the real cluster API or written directly into the
+// store as "another member") and a fault task (watch stream break that clientv3
+// resumes, fatal stream error that cancels the watch, server stop/start with an
+// optional compaction while it is down, compaction, Range errors/slowness up to
+// client time-outs, slow watch delivery, lost replies); every phase ends with a
+// quiet period (no writes, no faults, prompt consumer) after which convergence
+// is checked.
+//
+// Oracle (written from the property statement; the store history comes from
+// simetcd, which logs every revision):
+//   C19.phantom-snapshot      a delivered snapshot equals no content the watched
+//                             key/prefix ever had (at or after the syncer start)
+//   C19.raw-metadata-not-a-store-state   (raw adapters) keys/values match a real
+//                             state but the KeyValue metadata does not
+//   C19.order                 snapshots cannot be embedded order-preservingly in
+//                             the store's state sequence (an older state after a
+//                             newer one)
+//   C19.duplicate-snapshot    two consecutive snapshots are equal
+//   C19.no-convergence        after a quiet period the last delivered snapshot is
+//                             not the store's content
+//   C19.snapshot-mutated      a snapshot changed after it had been delivered
+//   C19.channel-closed        the channel was closed while the syncer was open
+//   C19.livelock              the run burnt its step budget (e.g. hot pull loop)
+//
+// Oracle leniency (statement silent / two readings):
+//   * the implicit first snapshot is "empty": a syncer whose target is empty may
+//     deliver nothing or an initial empty snapshot;
+//   * "content" = key -> value. For the raw adapters a same-value put changes
+//     mod_revision/version only; "consecutive snapshots differ" and "is a real
+//     state" are judged on the full KeyValue there, convergence on key -> value
+//     (stale metadata at the end is counted by a probe, not flagged);
+//   * convergence is checked only after a quiet period of
+//     2*pullInterval + 2*requestTimeout + 2*longest outage + max consumer lag + 3 s
+//     (assumes gRPC reconnects within 2*outage+3 s after the server is back);
+//   * a server-initiated watch cancel WITHOUT compact revision is not generated
+//     (etcd only does that in answer to a client cancel / failed creation).
+
 import (
+	"context"
+	"fmt"
+	"math/rand"
+	"net"
+	"sort"
+	"strings"
+	"sync"
 	"testing"
+	"time"
+	_ "unsafe"
+
+	"go.etcd.io/etcd/api/v3/mvccpb"
+	clientv3 "go.etcd.io/etcd/client/v3"
+	"go.uber.org/zap"
+	"google.golang.org/grpc"
+	"google.golang.org/grpc/backoff"
+	"google.golang.org/grpc/codes"
+	"google.golang.org/grpc/status"
+
+	pb "go.etcd.io/etcd/api/v3/etcdserverpb"
 
 	"github.com/megaease/easegress/pkg/cluster/zzsimetcd"
+	"github.com/megaease/easegress/pkg/logger"
+	"verif/simkit/hdrv"
+	"verif/simkit/sim"
+	"verif/simkit/simnet"
 )
 
+// c19SelectSeed is runtime.simSelectSeed of the patched runtime/select.go
+// (harness/simetcd/goroot): while non-zero, selects of goroutines inside the
+// bubble choose among ready cases from a generator seeded with it.
+//
+//go:linkname c19SelectSeed runtime.simSelectSeed
+var c19SelectSeed uint64
+
+// ---- scenario ---------------------------------------------------------------------
+
+type c19KV struct {
+	Key string  `json:"key"`
+	Val *string `json:"val"` // nil = delete
+}
+
+type c19Op struct {
+	GapUs int64   `json:"gap_us"`
+	Kind  string  `json:"kind"` // put | del | delprefix | txn
+	Via   string  `json:"via"`  // direct | api
+	Key   string  `json:"key"`
+	Val   string  `json:"val"`
+	KVs   []c19KV `json:"kvs,omitempty"`
+}
+
+type c19Writer struct {
+	Ops []c19Op `json:"ops"`
+}
+
+type c19Fault struct {
+	AtUs    int64  `json:"at_us"`
+	Kind    string `json:"kind"` // break | halt | stop | compact | rangeerr | rangeslow | watchslow | lostreply
+	DurUs   int64  `json:"dur_us"`
+	N       int    `json:"n"`
+	Code    string `json:"code"` // unavailable | deadline | unknown
+	Compact bool   `json:"compact"`
+	Back    int64  `json:"back"`
+}
+
+type c19Phase struct {
+	Writers []c19Writer `json:"writers"`
+	Faults  []c19Fault  `json:"faults"`
+}
+
+type c19Syncer struct {
+	Mode    string  `json:"mode"` // key | rawkey | prefix | rawprefix
+	Target  string  `json:"target"`
+	PullMs  int64   `json:"pull_ms"`
+	LagsMs  []int64 `json:"lags_ms"`
+	StartUs int64   `json:"start_us"`
+}
+
+type c19Scenario struct {
+	Seed         int64       `json:"seed"`
+	ReqTimeoutMs int64       `json:"req_timeout_ms"`
+	NetDelayUs   []int64     `json:"net_delay_us"`
+	LatencyUs    int64       `json:"latency_us"`
+	Init         []c19Op     `json:"init"`
+	Syncers      []c19Syncer `json:"syncers"`
+	Phases       []c19Phase  `json:"phases"`
+}
+
+var c19Keys = []string{"/p/a", "/p/a", "/p/a", "/p/a1", "/p/b", "/p/b", "/p/c", "/p0", "/p", "/q/a"}
+var c19Vals = []string{"v1", "v1", "v2", "v2", "v3", ""}
+
+func c19GenOp(rng *sim.Rand, burst int) c19Op {
+	op := c19Op{}
+	gaps := []int64{0, 0, 0, 1, 1307, 52_101, 303_217, 1_500_733}
+	switch burst {
+	case 0: // bursty
+		gaps = []int64{0, 0, 0, 0, 1, 97}
+	case 1: // slow
+		gaps = []int64{52_101, 303_217, 1_500_733, 2_700_011}
+	}
+	op.GapUs = gaps[rng.Intn(len(gaps))]
+	op.Via = rng.PickStr("direct", "api")
+	op.Key = c19Keys[rng.Intn(len(c19Keys))]
+	op.Val = c19Vals[rng.Intn(len(c19Vals))]
+	switch x := rng.Intn(100); {
+	case x < 55:
+		op.Kind = "put"
+	case x < 80:
+		op.Kind = "del"
+	case x < 88:
+		op.Kind = "delprefix"
+		op.Key = rng.PickStr("/p/", "/p/a", "/p", "/q/")
+	default:
+		op.Kind = "txn"
+		n := rng.Range(1, 4)
+		seen := map[string]bool{}
+		for i := 0; i < n; i++ {
+			k := c19Keys[rng.Intn(len(c19Keys))]
+			if seen[k] {
+				continue
+			}
+			seen[k] = true
+			kv := c19KV{Key: k}
+			if rng.Bool(0.65) {
+				v := c19Vals[rng.Intn(len(c19Vals))]
+				kv.Val = &v
+			}
+			op.KVs = append(op.KVs, kv)
+		}
+	}
+	return op
+}
+
+func c19Gen(rng *sim.Rand, tier string) interface{} {
+	sc := &c19Scenario{}
+	sc.Seed = int64(rng.Uint64() >> 1)
+	sc.ReqTimeoutMs = int64(rng.Pick(330, 1700, 1700, 7300))
+	switch rng.Intn(4) {
+	case 1:
+		sc.NetDelayUs = []int64{137}
+	case 2:
+		sc.NetDelayUs = []int64{53, 1103, 7019}
+	}
+	sc.LatencyUs = int64(rng.Pick(0, 0, 211, 3109))
+	for i, n := 0, rng.Intn(4); i < n; i++ {
+		op := c19GenOp(rng, 2)
+		op.Via, op.GapUs = "direct", 0
+		sc.Init = append(sc.Init, op)
+	}
+	ns := 1
+	if rng.Bool(0.3) {
+		ns = 2
+	}
+	for i := 0; i < ns; i++ {
+		s := c19Syncer{Mode: rng.PickStr("key", "rawkey", "prefix", "rawprefix")}
+		if strings.HasSuffix(s.Mode, "prefix") {
+			s.Target = rng.PickStr("/p/", "/p/", "/p/a")
+		} else {
+			s.Target = rng.PickStr("/p/a", "/p/a", "/p/b")
+		}
+		s.PullMs = int64(rng.Pick(200, 1000, 10000))
+		switch rng.Intn(4) {
+		case 0:
+			s.LagsMs = []int64{0}
+		case 1:
+			s.LagsMs = []int64{0, 0, 13, 0, 501}
+		case 2:
+			s.LagsMs = []int64{701, 2903}
+		default:
+			s.LagsMs = []int64{0, 97}
+		}
+		s.StartUs = int64(rng.Pick(0, 0, 1, 1009, 400_003))
+		sc.Syncers = append(sc.Syncers, s)
+	}
+	np := rng.Range(1, 3)
+	for p := 0; p < np; p++ {
+		ph := c19Phase{}
+		nw := rng.Range(1, 3)
+		var longest int64
+		for w := 0; w < nw; w++ {
+			wr := c19Writer{}
+			burst := rng.Intn(3)
+			var total int64
+			for i, n := 0, rng.Range(1, 8); i < n; i++ {
+				op := c19GenOp(rng, burst)
+				total += op.GapUs
+				wr.Ops = append(wr.Ops, op)
+			}
+			if total > longest {
+				longest = total
+			}
+			ph.Writers = append(ph.Writers, wr)
+		}
+		nf := rng.Pick(0, 0, 1, 1, 2, 3)
+		for f := 0; f < nf; f++ {
+			ft := c19Fault{AtUs: int64(rng.Intn(int(longest)+2000)) | 1}
+			switch x := rng.Intn(100); {
+			case x < 14:
+				ft.Kind = "break"
+			case x < 30:
+				ft.Kind = "halt"
+			case x < 50:
+				ft.Kind = "stop"
+				ft.DurUs = int64(rng.Pick(1_003, 200_017, 1_300_021, 3_700_029))
+				ft.Compact = rng.Bool(0.5)
+			case x < 60:
+				ft.Kind = "compact"
+				ft.Back = int64(rng.Pick(0, 0, 1, 3))
+			case x < 75:
+				ft.Kind = "rangeerr"
+				ft.N = rng.Pick(1, 1, 2, 5)
+				ft.Code = rng.PickStr("unavailable", "deadline", "unknown", "unknown")
+			case x < 85:
+				ft.Kind = "rangeslow"
+				ft.N = rng.Pick(1, 2, 3)
+				ft.DurUs = int64(rng.Pick(20_011, 400_009, 2_100_013, 9_000_007))
+			case x < 94:
+				ft.Kind = "watchslow"
+				ft.N = rng.Pick(1, 3, 10)
+				ft.DurUs = int64(rng.Pick(5_003, 250_007, 2_500_009))
+			default:
+				ft.Kind = "lostreply"
+				ft.N = rng.Pick(1, 2)
+			}
+			ph.Faults = append(ph.Faults, ft)
+		}
+		sort.SliceStable(ph.Faults, func(i, j int) bool { return ph.Faults[i].AtUs < ph.Faults[j].AtUs })
+		sc.Phases = append(sc.Phases, ph)
+	}
+	return sc
+}
+
+// ---- simulated environment ------------------------------------------------------------
+
+type c19Env struct {
+	r     *sim.Run
+	sc    *c19Scenario
+	net   *simnet.Net
+	store *zzsimetcd.Store
+	srv   *zzsimetcd.Server
+	gs    *grpc.Server
+	hooks zzsimetcd.Hooks
+	up    bool
+
+	// fault budgets, consumed by the hooks
+	rangeErrLeft  int
+	rangeErrCode  codes.Code
+	rangeSlowLeft int
+	rangeSlowDur  time.Duration
+	watchSlowLeft int
+	watchSlowDur  time.Duration
+	lostReplyLeft int
+	pullErrors    int
+	rangeCalls    int
+}
+
+const c19Addr = "etcd:2379"
+
+func (e *c19Env) start() {
+	lis, err := e.net.Listen("tcp", c19Addr)
+	if err != nil {
+		panic(err)
+	}
+	e.srv = zzsimetcd.NewServer(e.store)
+	e.srv.Hooks = e.hooks
+	e.gs = grpc.NewServer()
+	e.srv.Register(e.gs)
+	gs := e.gs
+	go gs.Serve(lis)
+	e.up = true
+}
+
+func (e *c19Env) stop() {
+	if !e.up {
+		return
+	}
+	e.up = false
+	e.gs.Stop()
+	e.srv.Close()
+}
+
+func (e *c19Env) unaryHook(ctx context.Context, ph zzsimetcd.Phase, method string, req interface{}) error {
+	r := e.r
+	if ph == zzsimetcd.Before {
+		// first gate of the handler goroutine, before any sleep: goroutine names
+		// (the scheduler's canonical order) are assigned at the first gate and
+		// must not depend on the order in which same-instant timers fire
+		r.Yield("etcd.rpc")
+		r.Eventf("rpc %s arrives", method)
+		slept := false
+		if e.sc.LatencyUs > 0 {
+			time.Sleep(time.Duration(e.sc.LatencyUs) * time.Microsecond)
+			slept = true
+		}
+		if method == "Range" {
+			e.rangeCalls++
+			if e.rangeSlowLeft > 0 {
+				e.rangeSlowLeft--
+				r.Fault("etcd.range_slow")
+				time.Sleep(e.rangeSlowDur)
+				slept = true
+			}
+		}
+		if slept {
+			r.Yield("etcd.wake")
+		}
+		if method == "Range" && e.rangeErrLeft > 0 {
+			e.rangeErrLeft--
+			r.Fault("etcd.range_error." + e.rangeErrCode.String())
+			if e.rangeErrCode == codes.Unknown {
+				e.pullErrors++
+			}
+			return status.Error(e.rangeErrCode, "simetcd: injected failure")
+		}
+		return nil
+	}
+	if method != "Range" && e.lostReplyLeft > 0 {
+		e.lostReplyLeft--
+		r.Fault("etcd.reply_lost_after_apply")
+		return status.Error(codes.Unavailable, "simetcd: reply lost")
+	}
+	return nil
+}
+
+func (e *c19Env) watchSendHook(streamID int64, resp *pb.WatchResponse) error {
+	e.r.Eventf("watch stream %d sends %d events canceled=%v compact=%d rev %d", streamID, len(resp.Events), resp.Canceled, resp.CompactRevision, resp.Header.Revision)
+	if e.watchSlowLeft > 0 {
+		e.watchSlowLeft--
+		e.r.Fault("etcd.watch_slow_delivery")
+		time.Sleep(e.watchSlowDur)
+		e.r.Yield("etcd.wake")
+	}
+	return nil
+}
+
+func (e *c19Env) clearFaults() {
+	e.rangeErrLeft, e.rangeSlowLeft, e.watchSlowLeft, e.lostReplyLeft = 0, 0, 0, 0
+}
+
+// ---- oracle helpers --------------------------------------------------------------------
+
+func c19KVString(kv *mvccpb.KeyValue, raw bool) string {
+	if kv == nil {
+		return "<nil>"
+	}
+	if raw {
+		return fmt.Sprintf("%q=%q(c%d,m%d,v%d,l%x)", kv.Key, kv.Value, kv.CreateRevision, kv.ModRevision, kv.Version, kv.Lease)
+	}
+	return fmt.Sprintf("%q=%q", kv.Key, kv.Value)
+}
+
+// c19Finger renders a projected content canonically.
+func c19Finger(m map[string]*mvccpb.KeyValue, raw bool) string {
+	ks := make([]string, 0, len(m))
+	for k := range m {
+		ks = append(ks, k)
+	}
+	sort.Strings(ks)
+	var b strings.Builder
+	b.WriteString("{")
+	for _, k := range ks {
+		kv := m[k]
+		if kv == nil {
+			fmt.Fprintf(&b, "%q=<nil-kv>;", k)
+			continue
+		}
+		if string(kv.Key) != k {
+			fmt.Fprintf(&b, "[map key %q]", k)
+		}
+		b.WriteString(c19KVString(kv, raw))
+		b.WriteString(";")
+	}
+	b.WriteString("}")
+	return b.String()
+}
+
+type c19State struct {
+	rev      int64
+	val, raw string
+}
+
+// c19Project computes the sequence of contents of the target (one entry per
+// revision in which the projected raw content changed, plus the initial one).
+func c19Project(hist []*zzsimetcd.RevRecord, target string, prefix bool) []c19State {
+	sel := func(k string) bool {
+		if prefix {
+			return strings.HasPrefix(k, target)
+		}
+		return k == target
+	}
+	cur := map[string]*mvccpb.KeyValue{}
+	states := []c19State{{rev: 1, val: c19Finger(cur, false), raw: c19Finger(cur, true)}}
+	for _, rec := range hist {
+		changed := false
+		for _, ev := range rec.Events {
+			k := string(ev.Kv.Key)
+			if !sel(k) {
+				continue
+			}
+			changed = true
+			if ev.Type == mvccpb.DELETE {
+				delete(cur, k)
+			} else {
+				cur[k] = ev.Kv
+			}
+		}
+		if changed {
+			states = append(states, c19State{rev: rec.Rev, val: c19Finger(cur, false), raw: c19Finger(cur, true)})
+		}
+	}
+	return states
+}
+
+type c19Snap struct {
+	val, raw string
+	at       time.Duration
+	orig     interface{} // the delivered object (to detect later mutation)
+	origFP   string
+}
+
+type c19Sync struct {
+	cfg      c19Syncer
+	idx      int
+	prefix   bool
+	raw      bool
+	syncer   Syncer
+	startRev int64
+	snaps    []c19Snap
+	closed   bool
+	closing  bool
+	full     bool
+	recv     func() (c19Snap, bool)
+	chanLen  func() int
+}
+
+func c19FPOf(v interface{}) string {
+	switch x := v.(type) {
+	case *string:
+		if x == nil {
+			return "<nil>"
+		}
+		return fmt.Sprintf("%q", *x)
+	case *mvccpb.KeyValue:
+		return c19KVString(x, true)
+	case map[string]string:
+		ks := make([]string, 0, len(x))
+		for k := range x {
+			ks = append(ks, k)
+		}
+		sort.Strings(ks)
+		var b strings.Builder
+		for _, k := range ks {
+			fmt.Fprintf(&b, "%q=%q;", k, x[k])
+		}
+		return b.String()
+	case map[string]*mvccpb.KeyValue:
+		return c19Finger(x, true)
+	}
+	return "?"
+}
+
+// ---- executor ---------------------------------------------------------------------------
+
+func c19Exec(r *sim.Run, sci interface{}) {
+	sc := sci.(*c19Scenario)
+	if len(sc.Syncers) == 0 || sc.ReqTimeoutMs <= 0 {
+		return
+	}
+	for _, s := range sc.Syncers {
+		if s.PullMs <= 0 || s.Target == "" {
+			return
+		}
+	}
+	rand.Seed(sc.Seed) // clientv3's retry jitter draws from the global source
+	c19SelectSeed = uint64(sc.Seed) | 1
+	defer func() { c19SelectSeed = 0 }()
+
+	n := simnet.New()
+	if len(sc.NetDelayUs) > 0 {
+		// the first segment of each direction is not delayed: the delivery
+		// goroutines pass their first gate (= get their canonical name) without
+		// having slept until the same instant
+		ds := []time.Duration{0}
+		for _, d := range sc.NetDelayUs {
+			if d < 0 {
+				d = 0
+			}
+			ds = append(ds, time.Duration(d)*time.Microsecond)
+		}
+		n.PlanFor = func(id int, addr string) (simnet.DirPlan, simnet.DirPlan) {
+			return simnet.DirPlan{Delays: ds}, simnet.DirPlan{Delays: ds}
+		}
+	}
+	env := &c19Env{r: r, sc: sc, net: n, store: zzsimetcd.NewStore()}
+	env.hooks = zzsimetcd.Hooks{Unary: env.unaryHook, WatchSend: env.watchSendHook,
+		StreamOpen: func(ctx context.Context, method string) error { r.Yield("etcd.stream"); return nil }}
+	env.start()
+
+	cli, err := clientv3.New(clientv3.Config{
+		Endpoints: []string{c19Addr},
+		Logger:    zap.NewNop(),
+		DialOptions: []grpc.DialOption{grpc.WithContextDialer(func(ctx context.Context, addr string) (net.Conn, error) {
+			return n.Dial(ctx, "tcp", addr)
+		}),
+			// gRPC's default reconnect back-off (1s * 1.6^n, max 120s) without its
+			// jitter, which is drawn from a generator seeded with the wall clock
+			grpc.WithConnectParams(grpc.ConnectParams{Backoff: backoff.Config{BaseDelay: time.Second, Multiplier: 1.6, Jitter: 0, MaxDelay: 120 * time.Second}, MinConnectTimeout: 20 * time.Second})},
+	})
+	if err != nil {
+		r.Violate("C19.harness", "clientv3.New: %v", err)
+		return
+	}
+	reqTimeout := time.Duration(sc.ReqTimeoutMs) * time.Millisecond
+	cl := &cluster{requestTimeout: reqTimeout, client: cli, done: make(chan struct{})}
+	if lg, err := env.store.LeaseGrant(&pb.LeaseGrantRequest{TTL: 3600 * 24 * 365}); err == nil {
+		id := clientv3.LeaseID(lg.ID)
+		cl.lease = &id
+	}
+
+	apply := func(who string, op c19Op) {
+		via := op.Via
+		if via != "api" {
+			via = "direct"
+		}
+		var err error
+		switch op.Kind {
+		case "put":
+			if via == "api" {
+				err = cl.Put(op.Key, op.Val)
+			} else {
+				env.store.PutKV(op.Key, op.Val)
+			}
+		case "del":
+			if via == "api" {
+				err = cl.Delete(op.Key)
+			} else {
+				env.store.DeleteKey(op.Key)
+			}
+		case "delprefix":
+			if op.Key == "" {
+				return
+			}
+			if via == "api" {
+				err = cl.DeletePrefix(op.Key)
+			} else {
+				env.store.DeletePrefix(op.Key)
+			}
+		case "txn":
+			if len(op.KVs) == 0 {
+				return
+			}
+			kvs := map[string]*string{}
+			for _, kv := range op.KVs {
+				if kv.Key == "" {
+					continue
+				}
+				kvs[kv.Key] = kv.Val
+			}
+			if via == "api" {
+				err = cl.PutAndDelete(kvs)
+			} else {
+				ks := make([]string, 0, len(kvs))
+				for k := range kvs {
+					ks = append(ks, k)
+				}
+				sort.Strings(ks)
+				req := &pb.TxnRequest{}
+				for _, k := range ks {
+					if v := kvs[k]; v != nil {
+						req.Success = append(req.Success, &pb.RequestOp{Request: &pb.RequestOp_RequestPut{RequestPut: &pb.PutRequest{Key: []byte(k), Value: []byte(*v)}}})
+					} else {
+						req.Success = append(req.Success, &pb.RequestOp{Request: &pb.RequestOp_RequestDeleteRange{RequestDeleteRange: &pb.DeleteRangeRequest{Key: []byte(k)}}})
+					}
+				}
+				_, err = env.store.Txn(req)
+			}
+		default:
+			return
+		}
+		res := "ok"
+		if err != nil {
+			res = "err:" + status.Code(err).String()
+		}
+		r.Eventf("%s %s %s %s=%q %s -> rev %d", who, via, op.Kind, op.Key, op.Val, res, env.store.Rev())
+	}
+
+	for _, op := range sc.Init {
+		op.Via = "direct"
+		apply("init", op)
+	}
+
+	// ---- syncers and consumers
+	prompt := false
+	var syncs []*c19Sync
+	for i, cfg := range sc.Syncers {
+		s := &c19Sync{cfg: cfg, idx: i}
+		switch cfg.Mode {
+		case "key":
+		case "rawkey":
+			s.raw = true
+		case "prefix":
+			s.prefix = true
+		case "rawprefix":
+			s.prefix, s.raw = true, true
+		default:
+			continue
+		}
+		syncs = append(syncs, s)
+	}
+	if len(syncs) == 0 {
+		cli.Close()
+		env.stop()
+		env.store.Close()
+		n.Shutdown()
+		return
+	}
+	for _, s := range syncs {
+		s := s
+		r.Go(fmt.Sprintf("cons%d", s.idx), func() {
+			r.Sleep(time.Duration(s.cfg.StartUs) * time.Microsecond)
+			sy, err := cl.Syncer(time.Duration(s.cfg.PullMs) * time.Millisecond)
+			if err != nil {
+				r.Violate("C19.harness", "Syncer: %v", err)
+				return
+			}
+			s.syncer = sy
+			s.startRev = env.store.Rev()
+			one := func(k string, kv *mvccpb.KeyValue) map[string]*mvccpb.KeyValue {
+				m := map[string]*mvccpb.KeyValue{}
+				if kv != nil {
+					m[k] = kv
+				}
+				return m
+			}
+			switch s.cfg.Mode {
+			case "key":
+				ch, _ := sy.Sync(s.cfg.Target)
+				s.chanLen = func() int { return len(ch) }
+				s.recv = func() (c19Snap, bool) {
+					v, ok := <-ch
+					if !ok {
+						return c19Snap{}, false
+					}
+					var m map[string]*mvccpb.KeyValue
+					if v != nil {
+						m = one(s.cfg.Target, &mvccpb.KeyValue{Key: []byte(s.cfg.Target), Value: []byte(*v)})
+					} else {
+						m = one(s.cfg.Target, nil)
+					}
+					return c19Snap{val: c19Finger(m, false), orig: v}, true
+				}
+			case "rawkey":
+				ch, _ := sy.SyncRaw(s.cfg.Target)
+				s.chanLen = func() int { return len(ch) }
+				s.recv = func() (c19Snap, bool) {
+					v, ok := <-ch
+					if !ok {
+						return c19Snap{}, false
+					}
+					k := s.cfg.Target
+					if v != nil {
+						k = string(v.Key)
+					}
+					m := one(k, v)
+					return c19Snap{val: c19Finger(m, false), raw: c19Finger(m, true), orig: v}, true
+				}
+			case "prefix":
+				ch, _ := sy.SyncPrefix(s.cfg.Target)
+				s.chanLen = func() int { return len(ch) }
+				s.recv = func() (c19Snap, bool) {
+					v, ok := <-ch
+					if !ok {
+						return c19Snap{}, false
+					}
+					m := map[string]*mvccpb.KeyValue{}
+					for k, x := range v {
+						m[k] = &mvccpb.KeyValue{Key: []byte(k), Value: []byte(x)}
+					}
+					return c19Snap{val: c19Finger(m, false), orig: v}, true
+				}
+			case "rawprefix":
+				ch, _ := sy.SyncRawPrefix(s.cfg.Target)
+				s.chanLen = func() int { return len(ch) }
+				s.recv = func() (c19Snap, bool) {
+					v, ok := <-ch
+					if !ok {
+						return c19Snap{}, false
+					}
+					return c19Snap{val: c19Finger(v, false), raw: c19Finger(v, true), orig: v}, true
+				}
+			}
+			r.Eventf("sync%d %s %q started at rev %d", s.idx, s.cfg.Mode, s.cfg.Target, s.startRev)
+			for k := 0; ; k++ {
+				if s.chanLen() >= 10 {
+					s.full = true
+				}
+				snap, ok := s.recv()
+				if !ok {
+					s.closed = true
+					if !s.closing {
+						r.Violate("C19.channel-closed", "sync%d: channel closed although the syncer was not closed", s.idx)
+					}
+					return
+				}
+				snap.at = r.Now()
+				snap.origFP = c19FPOf(snap.orig)
+				s.snaps = append(s.snaps, snap)
+				shown := snap.val
+				if s.raw {
+					shown = snap.raw
+				}
+				r.Eventf("sync%d snapshot #%d %s (store rev %d)", s.idx, len(s.snaps), shown, env.store.Rev())
+				lag := time.Duration(0)
+				if !prompt && len(s.cfg.LagsMs) > 0 {
+					lag = time.Duration(s.cfg.LagsMs[k%len(s.cfg.LagsMs)]) * time.Millisecond
+				}
+				if lag < 0 {
+					lag = 0
+				}
+				r.Sleep(lag)
+			}
+		})
+	}
+
+	var maxLag, maxPull time.Duration
+	for _, s := range syncs {
+		for _, l := range s.cfg.LagsMs {
+			if d := time.Duration(l) * time.Millisecond; d > maxLag {
+				maxLag = d
+			}
+		}
+		if d := time.Duration(s.cfg.PullMs) * time.Millisecond; d > maxPull {
+			maxPull = d
+		}
+		if d := time.Duration(s.cfg.StartUs) * time.Microsecond; d > maxLag {
+			maxLag = d
+		}
+	}
+
+	checkConverged := func(where string) {
+		hist := env.store.History()
+		for _, s := range syncs {
+			if s.syncer == nil || r.Violated() {
+				continue
+			}
+			states := c19Project(hist, s.cfg.Target, s.prefix)
+			final := states[len(states)-1]
+			lastVal, lastRaw := states[0].val, states[0].raw // implicit initial snapshot: empty
+			if len(s.snaps) > 0 {
+				lastVal, lastRaw = s.snaps[len(s.snaps)-1].val, s.snaps[len(s.snaps)-1].raw
+			}
+			if lastVal != final.val {
+				r.Violate("C19.no-convergence", "sync%d (%s %q, pull %dms) %s: store content is %s (since rev %d, store rev %d) but the last of %d delivered snapshots is %s; now %v",
+					s.idx, s.cfg.Mode, s.cfg.Target, s.cfg.PullMs, where, final.val, final.rev, env.store.Rev(), len(s.snaps), lastVal, r.Now())
+				return
+			}
+			if s.raw && len(s.snaps) > 0 && lastRaw != final.raw {
+				r.Probe("raw_metadata_stale_after_same_value_put")
+			}
+		}
+	}
+
+	// ---- phases
+	maxDown := time.Duration(0)
+	for pi, ph := range sc.Phases {
+		if r.Violated() || r.Aborted() {
+			break
+		}
+		prompt = false
+		var wg sync.WaitGroup
+		for wi, wr := range ph.Writers {
+			wi, wr := wi, wr
+			wg.Add(1)
+			r.Go(fmt.Sprintf("p%dw%d", pi, wi), func() {
+				defer wg.Done()
+				for _, op := range wr.Ops {
+					if r.Violated() || r.Aborted() {
+						return
+					}
+					g := op.GapUs
+					if g < 0 {
+						g = 0
+					}
+					r.Sleep(time.Duration(g) * time.Microsecond)
+					apply(fmt.Sprintf("p%dw%d", pi, wi), op)
+				}
+			})
+		}
+		faults := ph.Faults
+		wg.Add(1)
+		r.Go(fmt.Sprintf("p%dfaults", pi), func() {
+			defer wg.Done()
+			t0 := r.Now()
+			for _, f := range faults {
+				if r.Violated() || r.Aborted() {
+					return
+				}
+				if d := time.Duration(f.AtUs)*time.Microsecond - (r.Now() - t0); d > 0 {
+					r.Sleep(d)
+				} else {
+					r.Sleep(0)
+				}
+				dur := time.Duration(f.DurUs) * time.Microsecond
+				if dur < 0 {
+					dur = 0
+				}
+				if dur > 20*time.Second {
+					dur = 20 * time.Second
+				}
+				nn := f.N
+				if nn <= 0 {
+					nn = 1
+				}
+				switch f.Kind {
+				case "break":
+					k := env.srv.BreakWatchStreams(status.Error(codes.Unavailable, "simetcd: watch stream broken"))
+					if k > 0 {
+						r.Fault("etcd.watch_stream_break")
+					}
+					r.Eventf("fault break (%d streams)", k)
+				case "halt":
+					k := env.srv.BreakWatchStreams(status.Error(codes.Unknown, "simetcd: fatal watch stream error"))
+					if k > 0 {
+						r.Fault("etcd.watch_stream_fatal")
+					}
+					r.Eventf("fault halt (%d streams)", k)
+				case "stop":
+					env.stop()
+					r.Fault("etcd.server_stop")
+					r.Eventf("fault stop for %v", dur)
+					if dur > maxDown {
+						maxDown = dur
+					}
+					r.Sleep(dur)
+					if f.Compact {
+						if _, err := env.store.Compact(env.store.Rev()); err == nil {
+							r.Fault("etcd.compact_while_down")
+						}
+					}
+					env.start()
+					r.Eventf("server started again at rev %d", env.store.Rev())
+				case "compact":
+					rev := env.store.Rev() - f.Back
+					if _, err := env.store.Compact(rev); err == nil {
+						r.Fault("etcd.compact")
+						r.Eventf("fault compact at %d", rev)
+					}
+				case "rangeerr":
+					env.rangeErrLeft = nn
+					switch f.Code {
+					case "unavailable":
+						env.rangeErrCode = codes.Unavailable
+					case "deadline":
+						env.rangeErrCode = codes.DeadlineExceeded
+					default:
+						env.rangeErrCode = codes.Unknown
+					}
+				case "rangeslow":
+					env.rangeSlowLeft, env.rangeSlowDur = nn, dur
+				case "watchslow":
+					env.watchSlowLeft, env.watchSlowDur = nn, dur
+				case "lostreply":
+					env.lostReplyLeft = nn
+				}
+			}
+		})
+		wg.Wait()
+		if r.Violated() || r.Aborted() {
+			break
+		}
+		// quiet period: no writes, no faults, prompt consumers
+		env.clearFaults()
+		prompt = true
+		quiet := 2*maxPull + 2*reqTimeout + 2*maxDown + maxLag + 3*time.Second
+		r.Eventf("phase %d: activity over at rev %d, quiet for %v", pi, env.store.Rev(), quiet)
+		r.Sleep(quiet)
+		if r.Aborted() {
+			break
+		}
+		checkConverged(fmt.Sprintf("after the quiet period (%v) of phase %d", quiet, pi))
+	}
+
+	// ---- wind down
+	for _, s := range syncs {
+		s.closing = true
+	}
+	prompt = true
+	// give consumers that have not started yet the chance to do so, then close
+	r.Sleep(maxLag + time.Millisecond)
+	for _, s := range syncs {
+		if s.syncer != nil {
+			s.syncer.Close()
+		}
+	}
+	aborted := r.Aborted()
+	if !aborted {
+		r.WaitTasks()
+	}
+	cli.Close()
+	env.stop()
+	env.store.Close()
+	n.Shutdown()
+	if aborted || r.Aborted() {
+		r.Violate("C19.livelock", "the run used up its scheduling-step budget at %v (store rev %d, %d Range RPCs)", r.Now(), env.store.Rev(), env.rangeCalls)
+		return
+	}
+	if r.Violated() {
+		return
+	}
+
+	// ---- post-hoc oracle over the complete history
+	hist := env.store.History()
+	var sig strings.Builder
+	total, writesAfterStart := 0, 0
+	for _, s := range syncs {
+		if s.syncer == nil {
+			continue
+		}
+		states := c19Project(hist, s.cfg.Target, s.prefix)
+		pick := func(st c19State) string {
+			if s.raw {
+				return st.raw
+			}
+			return st.val
+		}
+		// first admissible state: the content at the syncer's start
+		p := 0
+		for i, st := range states {
+			if st.rev <= s.startRev {
+				p = i
+			}
+		}
+		if len(states)-1 > p {
+			writesAfterStart += len(states) - 1 - p
+		}
+		describe := func() string {
+			var b strings.Builder
+			fmt.Fprintf(&b, "sync%d %s %q pull %dms started at rev %d\nstore states:", s.idx, s.cfg.Mode, s.cfg.Target, s.cfg.PullMs, s.startRev)
+			for i, st := range states {
+				if i > 40 {
+					b.WriteString(" ...")
+					break
+				}
+				fmt.Fprintf(&b, " [%d]rev%d:%s", i, st.rev, pick(st))
+			}
+			b.WriteString("\ndelivered:")
+			for i, sn := range s.snaps {
+				if i > 40 {
+					b.WriteString(" ...")
+					break
+				}
+				x := sn.val
+				if s.raw {
+					x = sn.raw
+				}
+				fmt.Fprintf(&b, " #%d@%v:%s", i+1, sn.at, x)
+			}
+			return b.String()
+		}
+		prev := ""
+		for i, sn := range s.snaps {
+			got := sn.val
+			if s.raw {
+				got = sn.raw
+			}
+			if i == 0 && sn.val == states[0].val {
+				// an initial empty snapshot: accepted (the implicit one made explicit)
+				r.Probe("initial_empty_snapshot_delivered")
+			} else if i > 0 && got == prev {
+				r.Violate("C19.duplicate-snapshot", "snapshot #%d equals snapshot #%d: %s\n%s", i+1, i, got, describe())
+				return
+			}
+			prev = got
+			j := -1
+			for k := p; k < len(states); k++ {
+				if pick(states[k]) == got {
+					j = k
+					break
+				}
+			}
+			if j < 0 {
+				older, valOnly := -1, -1
+				for k := 0; k < len(states); k++ {
+					if pick(states[k]) == got && older < 0 {
+						older = k
+					}
+					if states[k].val == sn.val && valOnly < 0 {
+						valOnly = k
+					}
+				}
+				switch {
+				case older >= 0:
+					r.Violate("C19.order", "snapshot #%d %s is store state [%d], older than the state [%d] an earlier snapshot (or the start) already reflected\n%s", i+1, got, older, p, describe())
+				case s.raw && valOnly >= 0:
+					r.Violate("C19.raw-metadata-not-a-store-state", "snapshot #%d %s has the keys/values of store state [%d] but KeyValue metadata the store never had\n%s", i+1, got, valOnly, describe())
+				default:
+					r.Violate("C19.phantom-snapshot", "snapshot #%d %s equals no content the store ever had\n%s", i+1, got, describe())
+				}
+				return
+			}
+			p = j
+			if fp := c19FPOf(sn.orig); fp != sn.origFP {
+				r.Violate("C19.snapshot-mutated", "snapshot #%d was %s when delivered and is %s now\n%s", i+1, sn.origFP, fp, describe())
+				return
+			}
+		}
+		total += len(s.snaps)
+		if s.full {
+			r.Probe("channel_full_10_slots")
+		}
+		if len(s.snaps) >= 3 {
+			r.Probe("three_or_more_snapshots")
+		}
+		fmt.Fprintf(&sig, "%s|%s|", s.cfg.Mode, s.cfg.Target)
+		for _, sn := range s.snaps {
+			sig.WriteString(sn.val)
+		}
+	}
+	st := env.srv.Stats
+	if st.CompactCancels > 0 {
+		r.Probe("watch_cancelled_by_compaction_seen_by_last_incarnation")
+	}
+	if env.pullErrors > 0 {
+		r.Probe("pull_failed_with_error")
+	}
+	// same-value puts and delete-then-recreate actually happened?
+	lastVal := map[string]string{}
+	deleted := map[string]bool{}
+	for _, rec := range hist {
+		for _, ev := range rec.Events {
+			k := string(ev.Kv.Key)
+			if ev.Type == mvccpb.DELETE {
+				deleted[k] = true
+				delete(lastVal, k)
+				continue
+			}
+			if v, ok := lastVal[k]; ok && v == string(ev.Kv.Value) {
+				r.Probe("same_value_put")
+			}
+			if deleted[k] {
+				r.Probe("delete_then_recreate")
+				deleted[k] = false
+			}
+			lastVal[k] = string(ev.Kv.Value)
+		}
+	}
+	if total >= 2 && writesAfterStart >= 1 {
+		r.Nontrivial()
+	}
+	r.SetSig(sig.String())
+}
+
 func TestVerifC19(t *testing.T) {
-	t.Log(zzsimetcd.Hello(nil))
+	logger.InitNop()
+	hdrv.Main(t, &hdrv.Harness{
+		ID:       "C19",
+		Gen:      c19Gen,
+		New:      func() interface{} { return &c19Scenario{} },
+		Exec:     c19Exec,
+		MaxSteps: 100000,
+		Rule: "scenario = 1-2 syncers (key/rawkey/prefix/rawprefix, pull 200ms/1s/10s, prompt or lagging consumer) + 1-3 phases of writer tasks (put/same-value put/delete/recreate/delete-prefix/txn, under and outside the target, via the cluster API or directly in the store) and timed faults (stream break, fatal stream error, server stop/start with optional compaction, compaction, Range error/slowness, slow watch delivery, lost reply), each phase followed by a quiet period; " +
+			"non-trivial = at least two snapshots were delivered and the target changed after the syncer started; distinct = distinct (mode, target, delivered value sequence)",
+		Real: []string{"pkg/cluster syncer.run, Sync/SyncRaw/SyncPrefix/SyncRawPrefix, cluster.Get*/Put/Delete/DeletePrefix/PutAndDelete (instrumented sync)", "go.etcd.io/etcd/client/v3 (watcher resume, retry interceptor)", "google.golang.org/grpc client and server over simnet"},
+		Stub: []string{"etcd server = simetcd (single-copy MVCC model with history, compaction, watch streams; harness/simetcd)", "cluster value built in-package around the client (no embedded etcd, no heartbeat)", "network = simnet"},
+		Assumptions: []string{
+			"first snapshot: an empty target may yield no snapshot or one empty snapshot",
+			"content = key->value; raw adapters: real-state and consecutive-differ rules use the full KeyValue, convergence uses key->value",
+			"convergence is required after a quiet period of 2*pull + 2*requestTimeout + 2*longest outage + max consumer lag + 3s",
+			"server-initiated watch cancel without compact revision is not generated",
+			"select order inside syncer.run / clientv3 / grpc is chosen by the Go runtime (not by the seeded scheduler)",
+		},
+	})
 }
